@@ -9,7 +9,7 @@ import sys
 
 sys.path.insert(0, os.path.dirname(os.path.dirname(os.path.abspath(__file__))))
 import py2lean  # noqa: E402
-from extract_lib import REPO, generator, write  # noqa: E402
+from extract_lib import REPO, generator, lean_str, write  # noqa: E402
 from py2lean import BOOL, INT, STR, Fn, Opt, Spec, Tup, chain_matcher  # noqa: E402
 
 HEAD = """import WzVerif.Util.PyPrelude
@@ -30,6 +30,37 @@ def emit(topic, specs, imports=(), extra=""):
             srcs.append(s)
     body = HEAD.format(topic=topic, imports="".join(f"import {i}\n" for i in imports)) + "\n".join(parts) + f"\nend Wz.Gen.PyFns_{topic}\n"
     return write(f"PyFns_{topic}", body, ", ".join(srcs) + " (tools/py2lean.py)")
+
+
+# --------------------------------------------------------------------------
+# werkzeug._internal._plain_int (used by C09, C11)
+
+PLAIN_INT = Spec(
+    module="_internal.py",
+    qualname="_plain_int",
+    name="plain_int",
+    params=[("value", "Str")],
+    result="Int",
+    raises=True,
+)
+PLAIN_INT_FN = Fn("Gen.PyFns_Internal.plain_int", [STR], INT, raises=("ValueError",))
+
+
+def regex_const(module, name, lean):
+    """pin the source of a module-level compiled regex the translation maps to a prelude matcher"""
+    import importlib
+
+    rx = getattr(importlib.import_module(module), name)
+    return f"""/-- `{module}.{name}`: (pattern source, flags) - the translation maps its methods to a
+hand-written matcher of the prelude, which is only right for this source -/
+def {lean} : String × Nat := ({lean_str(rx.pattern)}, {int(rx.flags)})
+
+"""
+
+
+@generator("PyFns_Internal")
+def gen_internal():
+    return emit("Internal", [PLAIN_INT], extra=regex_const("werkzeug._internal", "_plain_int_re", "plainIntRe"))
 
 
 # --------------------------------------------------------------------------
@@ -110,6 +141,48 @@ SAFE_JOIN = Spec(
 )
 
 
+def _call_matcher(dotted_name, lits_before=(), nargs=1):
+    """matcher for `a.b.c(<literal args...>, X)` -> [X]"""
+    import ast
+
+    def m(n):
+        if not (isinstance(n, ast.Call) and not n.keywords and py2lean.dotted(n.func) == dotted_name):
+            return None
+        if len(n.args) != len(lits_before) + nargs:
+            return None
+        for a, v in zip(n.args, lits_before):
+            if not (isinstance(a, ast.Constant) and a.value == v and type(a.value) is type(v)):
+                return None
+        return list(n.args[len(lits_before):])
+
+    return m
+
+
+def secure_filename_spec():
+    import os as _os
+
+    return Spec(
+        module="utils.py",
+        qualname="secure_filename",
+        name="secure_filename",
+        opaque=[("nfkd", "Pre.Str → Pre.Str")],
+        params=[("filename", "Str")],
+        result="Str",
+        patterns=[
+            # unicodedata.normalize("NFKD", X): opaque
+            (_call_matcher("unicodedata.normalize", ("NFKD",)), Fn("nfkd", [STR], STR)),
+            # X.encode("ascii", "ignore").decode("ascii")
+            (chain_matcher(("encode", ("ascii", "ignore")), ("decode", ("ascii",))), Fn("Pre.asciiIgnore", [STR], STR)),
+            # _filename_ascii_strip_re.sub("", X): the regex is one character class, evaluated on every
+            # code point into Gen.Paths.stripRe / stripReHigh by tools/gen/c14.py
+            (_call_matcher("_filename_ascii_strip_re.sub", ("",)), Fn("filenameAsciiStripReSubEmpty", [STR], STR)),
+        ],
+        consts={"os.sep": ("osSep", "Str"), "os.path.altsep": ("osAltsep", "Option Str")},
+        # decided at generation time and pinned by the obligation `windows_branch_dead`
+        static={"os.name == 'nt'": _os.name == "nt"},
+    )
+
+
 @generator("PyFns_Paths")
 def gen_paths():
     import os as _os
@@ -120,4 +193,37 @@ def gen_paths():
 def osPathIsPosixpath : Bool := {"true" if _os.path is _pp else "false"}
 
 """
-    return emit("Paths", [SAFE_JOIN], imports=["WzVerif.Model.Paths"], extra=extra)
+    opt_str = lambda v: "none" if v is None else f"some {py2lean.lean_str_lit(v)}"  # noqa: E731
+    extra += f"""/-- `os.sep` -/
+def osSep : Pre.Str := {py2lean.lean_str_lit(_os.sep)}
+
+/-- `os.path.altsep` -/
+def osAltsep : Option Pre.Str := {opt_str(_os.path.altsep)}
+
+/-- `os.name == "nt"` at generation time (decides the Windows device-file branch of `secure_filename`) -/
+def osNameNt : Bool := {"true" if _os.name == "nt" else "false"}
+
+/-- `_filename_ascii_strip_re.sub("", s)`: the regex is a single character class; `Wz.Paths.stripped`
+is that class evaluated on every code point (`Gen/Paths.lean`, regenerated on every run) -/
+def filenameAsciiStripReSubEmpty (s : Pre.Str) : Pre.Str := s.filter fun c => !Wz.Paths.stripped c
+
+"""
+    return emit("Paths", [SAFE_JOIN, secure_filename_spec()], imports=["WzVerif.Model.Paths"], extra=extra)
+
+
+# --------------------------------------------------------------------------
+# C09: Content-Length
+
+GET_CONTENT_LENGTH = Spec(
+    module="sansio/utils.py",
+    qualname="get_content_length",
+    name="get_content_length",
+    params=[("http_content_length", "Option Str"), ("http_transfer_encoding", "Option Str")],
+    result="Option Int",
+    calls={"_plain_int": PLAIN_INT_FN},
+)
+
+
+@generator("PyFns_Length")
+def gen_length():
+    return emit("Length", [GET_CONTENT_LENGTH], imports=["WzVerif.Gen.PyFns_Internal"])
